@@ -132,6 +132,21 @@ CHECKS.update({
     ),
 })
 
+CHECKS.update({
+    "C12": (
+        "model_checking",
+        "enumerator",
+        "exhaustive enumeration on the real connection: (a) every type id 0..65535 (+large varints) x 4 payload shapes through plaintext "
+        "and Noise sessions with a probe on every class and full state-fingerprint equality for undefined ids; (b) every "
+        "subscribe/unsubscribe/dispatch history up to depth 5/6 over three handlers x 125 re-entrant body assignments against snapshot "
+        "semantics; (c) every sequence of <=3 peer requests/traffic frames, in one chunk and in separate chunks",
+        "The id space and the bounded history space are enumerated completely; the history oracle replays the observed call order on a "
+        "reference registration set, so it is independent of set iteration order.",
+        BASE,
+        "DESIGN.md §3 C12",
+    ),
+})
+
 NOT_APPLICABLE: dict[str, str] = {}
 
 
